@@ -78,6 +78,18 @@ def gen_case(rng, tier):
         G, H, iso = mg.gen_pair(rng, max_n)
         inp.update({"G": G, "H": H})
         k = rng.randint(2, 5)
+        if kind == "repr" and rng.random() < 0.012:
+            # diameters and vertex counts right at the boundaries of the integer types the distances are stored in,
+            # against a single vertex (2 mGH(G, point) = diam G at any size), in every representation
+            n_ = rng.choice((127, 128, 129, 130, 255, 256, 257, 258))
+            e_ = [[i, i + 1] for i in range(n_ - 1)]
+            if rng.random() < 0.5:
+                e_.append([n_ - 1, 0])
+            G, H = {"n": n_, "edges": e_}, {"n": 1, "edges": []}
+            if rng.random() < 0.5:
+                G, H = H, G
+            inp.update({"G": G, "H": H, "mso": [0.0, 0.0]})
+            k = 2
         if kind == "repr" and max_n >= 9 and rng.random() < 0.6:
             # many RNG schedules on one labelled pair, without the (expensive) exact reference: the lower bound
             # must not move with the RNG state
